@@ -105,3 +105,9 @@ Definition margin_bwd_b (g c m y a b : R) : R := g * (y * (c * step0 (m - y * (a
 Definition vfocal (alpha gamma p : R) : R := - (alpha * Rpower (1 - p) gamma * ln p).
 Definition focal_bwd (g alpha gamma p : R) : R :=
   g * (if Req_EM_T gamma 0 then - (alpha / p) else - alpha * (Rpower (1 - p) gamma / p - gamma * Rpower (1 - p) (gamma - 1) * ln p)).
+
+(* ---- cumulative product along one lane (math/sequential/ops.py, CumProd): out_k = x_0 * ... * x_k ---- *)
+Definition vcumprod (l : list R) : list R := map (fun k => vprod (firstn (S k) l)) (seq 0 (length l)).
+(* dldx = reverse_cumsum(g * cumprod(x)) / x   (the branch for lanes without zeros; the patched branches for zeros are checked numerically only) *)
+Definition cumprod_bwd (g l : list R) (i : nat) : R :=
+  vsum (map (fun k => nth k g 0 * nth k (vcumprod l) 0) (seq i (length l - i))) / nth i l 0.
